@@ -28,7 +28,7 @@ def check(run):
         c = rng.choice([100, 101, 128])
         pol = rng.choice(asyncgen.POLICIES)
         occ = rng.choice([0, c - 2, c - 1, c, c + 1])
-        cases.append('%d %s %s' % (c, pol, ' '.join(asyncgen.fill_prefix(c, occ) + asyncgen.random_sequence(rng, c, pol, rng.randint(5, 300), allow_stop=False, occ=occ))))
+        cases.append('%d %s %s' % (c, pol + rng.choice(['', '', '+L']), ' '.join(asyncgen.fill_prefix(c, occ) + asyncgen.random_sequence(rng, c, pol, rng.randint(5, 300), allow_stop=False, occ=occ))))
 
     def nontrivial(c, obs):
         return any(x.split('|')[1] not in ('0', '') for x in obs.split(';') if '|' in x) or '|b' in obs
@@ -39,12 +39,47 @@ def check(run):
     run.exhaustive = True
     c04.run_concurrent(run, 'c06/concurrent-fifo', 30 if quick else 800)
     stalled(run, 24 if quick else 400)
+    rolling_policy(run)
     return 'see streams'
+
+
+def rolling_policy(run):
+    """the same overflow rules for the async logger built by the RollingFile logger plugin (async=true)"""
+    import shutil
+    tmp = common.scratch_dir('c06r')
+    try:
+        cases = ['%s %d %d' % (pol, extra, sep) for pol in ('Discard', 'DiscardOldest', 'Block') for extra in ((1, 7) if run.tier == 'quick' else (1, 2, 7, 50, 150)) for sep in (0, 1)]
+        common.write_lines(tmp + '/c', cases)
+        rc, li = common.run_impl('c06r', tmp + '/c', tmp + '/i', timeout=1800)
+        io = common.read_lines(tmp + '/i')
+        run.obligations += 1
+        if rc != 0 or len(io) != len(cases):
+            run.add_violation('harness-error', 'c06r rc=%s %s' % (rc, li[-1000:]), [li[-2000:]], no_input=True)
+            return
+        bad = []
+        for c, o in zip(cases, io):
+            pol, extra, _ = c.split()
+            extra = int(extra)
+            allids = ['b.%d' % i for i in range(1, 101)] + ['x.%d' % i for i in range(1, extra + 1)]
+            want = {'Discard': '1 | ' + ','.join(['h.0'] + allids[:100]),
+                    'DiscardOldest': '1 | ' + ','.join(['h.0'] + allids[-100:]),
+                    'Block': '0 | ' + ','.join(['h.0'] + allids)}[pol]
+            if o != want:
+                bad.append((c, o, want))
+        for c, o, w in bad[:3]:
+            run.add_violation('oracle:c06/rolling-policy', 'the async logger of a RollingFile logger does not apply its configured overflow policy (or order): got %s want %s' % (o[:160], w[:160]),
+                              ['family c06r', 'case ' + c, 'impl ' + o[:2000], 'want ' + w[:2000]])
+        if not bad:
+            run.discharged += 1
+        run.stream('c06/rolling-policy', len(cases), len(cases), False, 'RollingFile logger with async=true (plain and separate), the worker parked inside the logger layout, buffer full, 1-150 further submissions: '
+                   'Discard keeps the first 100, DiscardOldest the last 100, Block parks the caller; calls return at once under the two discard policies; file order = submission order')
+    finally:
+        shutil.rmtree(tmp, ignore_errors=True)
 
 
 def stalled_oracle(case, obs):
     f = case.split()
-    cap, pol, np_, ni = int(f[0]), f[1], int(f[2]), int(f[3])
+    cap, pol, np_, ni = int(f[0]), f[1].replace('+L', ''), int(f[2]), int(f[3])
     head, deliv = obs.split(' | ')
     ret, counter = head.split()
     if ret != '1':
@@ -70,7 +105,7 @@ def stalled_oracle(case, obs):
     return 'ok'
 
 
-HEAVY = ['100 DiscardOldest 32 40', '100 DiscardOldest 64 200', '101 DiscardOldest 8 40', '100 DiscardOldest 16 3000', '100 DiscardOldest 4 5000', '100 Discard 64 100', '100 DiscardOldest 16 60000']
+HEAVY = ['100 DiscardOldest 32 40', '100 DiscardOldest 64 200', '101 DiscardOldest 8 40', '100 DiscardOldest 16 3000', '100 DiscardOldest 4 5000', '100 Discard 64 100', '100 DiscardOldest+L 16 3000', '100 DiscardOldest 16 60000']
 
 
 def stalled(run, n, name='c06/stalled-appender'):
@@ -82,7 +117,7 @@ def stalled(run, n, name='c06/stalled-appender'):
         # purpose: for the first few hundred microseconds the producers barely overlap (the other Ps are still waking up)
         cases = list(HEAVY)
         for _ in range(n):
-            cases.append('%d %s %d %d' % (rng.choice([100, 101, 128]), rng.choice(['Discard', 'DiscardOldest', 'DiscardOldest']), rng.choice([1, 2, 4, 8, 32]), rng.choice([1, 5, 40])))
+            cases.append('%d %s %d %d' % (rng.choice([100, 101, 128]), rng.choice(['Discard', 'DiscardOldest', 'DiscardOldest']) + rng.choice(['', '+L']), rng.choice([1, 2, 4, 8, 32]), rng.choice([1, 5, 40])))
         common.write_lines(tmp + '/c', cases)
         rc, li = common.run_impl('c06w', tmp + '/c', tmp + '/i', timeout=3000)
         io = common.read_lines(tmp + '/i')
